@@ -993,3 +993,59 @@ def prog_conform(seed: int, n_ops: int = 7) -> G:
         if rng.random() < 0.3:
             g.emit(["conform", "d" + r[1:], c])
     return g
+
+
+def prog_values(seed: int, n_ops: int = 6) -> G:
+    """The same operation sequence built twice from the same leaves (equality/hash of relations),
+    interleaved with compilation, execution, processing and diagnostics over the shared pool, with a
+    fingerprint snapshot of EVERY pool relation after each step (C09)."""
+    g = G(seed, max_rows=4)
+    rng = g.rng
+    g.engine("e0", "sql")
+    g.engine("e1", "iter")
+    for e in ("e0", "e1"):
+        g.leaf(e, cols=sorted(rng.sample(BASE_COLS, rng.choice([2, 3]))))
+    twins: list[tuple[str, str]] = [(x, x) for x in list(g.cols)]
+    g.emit(["snap"])
+    for _ in range(n_ops):
+        a, b = rng.choice(twins)
+        k = rng.random()
+        cols = g.cols[a]
+        if k < 0.7:
+            op, nc = g.rand_op(cols, allow=("calc", "dedup", "proj", "sel", "sort", "sort", "slice"))
+            if op[0] == "sel" and rng.random() < 0.4 and cols:
+                c = rng.choice(sorted(cols))
+                op = ["sel", ["in", ["ref", c], ["seq", ["lit", 0], ["ref", c], ["lit", 2]]]]
+            opts = g.opts(rng.choice(["-", "-", "e0", "e1"]), rng.random() < 0.7, rng.random() < 0.3, False)
+            ra = g.apply(a, op, nc, opts)
+            rb = g.apply(b, op, nc, opts)
+        elif k < 0.82:
+            name = f"M{g.n}"
+            ra = g.mat(a, name)
+            rb = g.mat(b, name)
+        elif k < 0.92:
+            e = rng.choice(["e0", "e1"])
+            ra = g.transfer(a, e)
+            rb = g.transfer(b, e)
+        else:
+            ra = g.chain(a, a)
+            rb = g.chain(b, b)
+        twins.append((ra, rb))
+        g.emit(["hash", ra, rb])
+        g.emit(["snap"])
+        ev = rng.random()
+        r = rng.choice([ra, rb, rng.choice(twins)[0]])
+        if ev < 0.25:
+            g.emit(["exec", r])
+            g.emit(["sqlexec", r])
+        elif ev < 0.5:
+            g.emit(["process", "p" + r[1:], r])
+            g.emit(["exec", "p" + r[1:]])
+            g.emit(["sqlexec", "p" + r[1:]])
+        elif ev < 0.6:
+            g.emit(["diag", r, "none"])
+        elif ev < 0.7:
+            g.emit(["sqlexec", r])
+            g.emit(["sqlexec", r])
+        g.emit(["snap"])
+    return g
